@@ -756,6 +756,9 @@ class _ParseFunction(_nt('_ParseFunction', 'func, args, kwargs')):
 def _argument_key(value):
     if isinstance(value, ParsedObject):
         return (ParsedObject, id(value))
+    if isinstance(value, tuple):
+        # Equal tuples may hold different values: (1,) == (True,).
+        return (type(value), tuple(_argument_key(x) for x in value))
     return (type(value), value)
 
 
